@@ -70,9 +70,10 @@ def classify(fn, case, exp, got):
             return 'cmp:in-set-display-tested-by-equality:%s:%s->%s' % (kind, oe, og)
         if kind == 'reordered' and any(o in ('in', 'not in') and c.startswith('D') for o, c in zip(ops, cont)):
             return 'cmp:in-literal-members-before-needle'
-        if kind in ('missing-events', 'extra-events', 'different-events') and exp[0] == 'exc' and \
-                any(o in ('in', 'not in') and c.startswith('D') for o, c in zip(ops, cont)):
-            return 'cmp:in-literal-members-before-needle:exception-cuts-log'
+        if any(o in ('in', 'not in') and c.startswith('D') for o, c in zip(ops, cont)) and 'L' in fn['cls'].rsplit(':', 1)[-1]:
+            # x in (a, b) is rewritten to x == a or x == b (x != a and x != b): CPython asks the member (a == x) and
+            # never calls __ne__; logging operands see different methods / different scripted results
+            return 'cmp:in-literal-flattened-to-eq-chain:operand-order-or-ne:%s:%s->%s' % (kind, oe, og)
         i = next((j for j in range(max(len(le), len(lg))) if (le[j] if j < len(le) else None) != (lg[j] if j < len(lg) else None)), None)
         a = c20.ev_name(le[i]) if i is not None and i < len(le) else 'none'
         b = c20.ev_name(lg[i]) if i is not None and i < len(lg) else 'none'
@@ -83,6 +84,8 @@ def classify(fn, case, exp, got):
             return 'cmp:member-identity-shortcut-missing:%s:needle=%s:%s:%s->%s' % (fn['br'], nc, kind, oe, og)
         if fn['br'] == '{}':
             return 'cmp:member-set-display-tested-by-equality:needle=%s:%s:%s->%s' % (nc, kind, oe, og)
+        if fn['br'] in ('()', '[]') and nc == 'logging-object':
+            return 'cmp:member-literal-flattened-to-eq-chain:operand-order-or-ne:%s:%s->%s' % (kind, oe, og)
     if fn['family'] == 'member-typed' and fn['lit'].startswith("b'") and fn['ct'] != 'bytes' and oe == 'ValueError':
         return 'cmp:c-int-in-bytes-literal-out-of-range:%s->%s' % (oe, og)
     if fn['family'] == 'switch':
@@ -119,7 +122,7 @@ def main(ck):
             if f['char']:
                 xs = ["'%s'" % c for c in 'abcdefghi'] + ["'\\u20ac'", "'\\x00'"]
             else:
-                lo = 0 if f['ct'] in ('unsigned char', 'size_t') else -3
+                lo = 0 if f['ct'] in ('unsigned char', 'size_t', 'Color') else -3     # (an all-positive C enum is unsigned)
                 xs = [str(v) for v in range(lo, 14)] + (['255'] if f['ct'] != 'Color' else [])
             cs = [{'f': f['name'], 'a': '(%s, %s)' % (x, 'True' if (j + len(x)) % 2 else 'False'), 't': 'switch/' + f['ct']}
                   for j, x in enumerate(xs)]
